@@ -11,7 +11,7 @@ package webtransport
 // send: WebTransport frame = length header (1 / 3 / 9 bytes, top bit = binary) + the packet as a binary-capable frame.
 //@ func send
 //@   requires w != nil && outlen(w) >= 0 && validPacket(packet)
-//@   modifies outlen(w), outbyte(w)
+//@   modifies outlen(w), outbyte(w), b64base(), b64pending(), b64target()
 //@   ensures reliable(w) ==> result == nil [C11.wt.send.reliable]
 //@   ensures forall i int :: {outbyte(w, i)} 0 <= i && i < old(outlen(w)) ==> outbyte(w, i) == old(outbyte(w, i)) [C11.wt.send.prefix]
 //@   ensures result == nil ==> outlen(w) == old(outlen(w)) + hlen(elen(packet, true)) + elen(packet, true) [C11.wt.send.len]
